@@ -342,7 +342,8 @@ def pi4_reducer_threading(ctx, rep):
         for d in carried:
             kind, place, x = bp.def_rvalue(d)
             t = bp._def_term(d, kind, x, ())
-            rep.check(t in want, R, "carried-value-is-reducer-answer:" + key, ctx.where(body, d[0]), "loop-carried chain state is %s" % term_str(t), "loop-carried chain state is %s, not the reducer's answer" % term_str(t))
+            good = t in want or (t[0] == "phi" and set(t[1]) <= want)
+            rep.check(good, R, "carried-value-is-reducer-answer:" + key, ctx.where(body, d[0]), "loop-carried chain state is %s" % term_str(t), "loop-carried chain state is %s, not the reducer's answer" % term_str(t))
     # INIT: the chain input is the state read in this pass
     if inits:
         it = P.I.in_context(k[0], body, next(iter(inits)))
@@ -578,8 +579,20 @@ def n1_flag(ctx, rep):
                     # only user-level flags (named variables)
                     if st["place"]["l"] in body.names:
                         cand.setdefault(st["place"]["l"], {}).setdefault(arm[0], set()).add(st["rv"]["op"]["val"] == "true")
+        # the same through values: `flag = dispatch` where `dispatch` is the arm's constant
+        env = getattr(p, "env", None) or {}
+        for l, v in env.items():
+            if l in body.names and l in flags or (l in body.names and body.local_ty(l) == "bool"):
+                if isinstance(v, tuple) and v[0] == "const" and v[1] in ("true", "false") and arm[0] not in cand.get(l, {}):
+                    cand.setdefault(l, {}).setdefault(arm[0], set()).add(v[1] == "true")
     rep.floor(R, "reducer-answer arms enumerated", n, 2, s.where)
     flag = [l for l, arms in cand.items() if arms.get("Dispatch") == {True} and arms.get("Keep") == {False}]
+    if len(flag) > 1:
+        # iteration-local temporaries (`let (.., dispatch) = match ..`) are not the flag: the
+        # flag is the one that also has a value before the loop
+        def has_outside_def(l):
+            return any(bp.reaching_out(l, p_) for p_ in cfg.pred[h] if p_ not in blks)
+        flag = [l for l in flag if has_outside_def(l)]
     if not rep.check(len(flag) == 1, R, "flag-set-by-answer:" + short(body.path), s.where, "notify flag is set true on Dispatch and false on Keep (last reducer decides)",
                      "no flag is set true on Dispatch and false on Keep: %s" % {body.names.get(l, l): a for l, a in cand.items()}):
         return
